@@ -304,14 +304,15 @@ impl<'p> Interp<'p> {
 
 	pub fn fl_arith(&mut self, op: &str, a: Fl, b: Fl) -> R<V> {
 		if let (Fl::C(x), Fl::C(y)) = (a, b) {
-			return Ok(V::F(Fl::C(match op {
+			let r = match op {
 				"+" => x + y,
 				"-" => x - y,
 				"*" => x * y,
 				"/" => x / y,
 				"%" => x % y,
 				_ => return unsup("float operator"),
-			})));
+			};
+			return Ok(V::F(Fl::C(self.rf(r))));
 		}
 		let (ra, _) = self.fl_parts(a);
 		let (rb, _) = self.fl_parts(b);
